@@ -127,6 +127,13 @@ func kGen(seed int64, dir string) kHistory {
 		switch r.Intn(12) {
 		case 0, 1, 2, 3:
 			name := fmt.Sprintf("s%d", kCounter)
+			if r.Intn(4) == 0 {
+				// '@' selects the abstract namespace only as the first byte of the path
+				name = pick("user@host", "a@", "x.@.y", "@@") + name
+				if name[0] == '@' {
+					name = "p" + name
+				}
+			}
 			form := pick("abs", "abs", "rel", "dotrel", "sub")
 			switch form {
 			case "abs":
